@@ -69,11 +69,17 @@ MODELQ = M4C20()
 
 def genq(rng, prop, job):
     from . import m4_queue
-    return m4_queue.gen_c20(rng)
+    return m4_queue.gen_c20(rng, join=bool(job.get("join")))
 
 
 def gen(rng, prop, job):
     from . import m3_lock
+    if job.get("debug"):
+        # Lock(debug=True): the same programs with the debug prints on (they read Lock.waiting once more and, without a till,
+        # raise inside wait()'s try block): monitors only
+        sc = m3_lock.gen_scenario(rng, "terminating" if rng.random() < 0.5 else "mixed")
+        sc["debug"] = True
+        return sc
     if job.get("stress"):
         kind = "stress"
     elif prop == "C20":
@@ -105,9 +111,17 @@ def make_jobs(prop, tier, seed):
             jobs.append({"kind": "pbound", "prop": prop, "seed": seed * 104729 + j, "k": 2, "budget": 2000})
     else:
         jobs.append({"kind": "pbound", "prop": prop, "seed": seed * 104729, "k": 1, "budget": 200})
+    if prop in ("C05", "C06"):
+        for j in range(2 if tier == "quick" else 12):
+            jobs.append({"kind": "explore", "debug": True, "prop": prop, "seed": seed * 67867967 + j, "scenarios": 8, "schedules": 6, "no_driver": True})
     if prop == "C20":
         for j in range(4 if tier == "quick" else 24):
             jobs.append({"kind": "explore", "side": "queue", "prop": prop, "seed": seed * 32452843 + j, "scenarios": 8, "schedules": 6})
+        jobs.append({"kind": "explore", "side": "queue", "join": True, "prop": prop, "seed": seed * 15485867 + 1, "scenarios": 6, "schedules": 4,
+                     "no_driver": True})
+        # several threads parked on ONE Signal (the Lock gives every waiter its own): the M1 exploration with waiters only
+        for j in range(3 if tier == "quick" else 16):
+            jobs.append({"kind": "explore", "side": "signal", "prop": prop, "seed": seed * 86028121 + j, "scenarios": 10, "schedules": 6})
     return jobs
 
 
@@ -122,7 +136,20 @@ def _is_queue(job):
     return rp.get("model") == "m4"
 
 
+def _is_signal(job):
+    if job.get("side") == "signal":
+        return True
+    rp = (job.get("replay") or {}).get("replay") or job.get("replay") or (job.get("failure") or {}).get("replay") or {}
+    return rp.get("model") == "m1"
+
+
 def run_job(job):
+    if _is_signal(job):
+        from . import p_m1
+        res = p_m1.run_job(dict(job, prop="C20"))
+        if isinstance(res, dict) and "known" not in res and "violated" not in res and "failure" not in res and "infra_error" not in res:
+            res["known"] = []
+        return res
     if job["kind"] == "pbound":
         return plug.pbound_job(MODEL, gen_small, job)
     if _is_queue(job):
@@ -131,6 +158,8 @@ def run_job(job):
 
 
 def shrink(prop, failure):
+    if (failure.get("replay") or {}).get("model") == "m1":
+        return failure
     if (failure.get("replay") or {}).get("model") == "m4":
         return plug.std_shrink(MODELQ, prop, failure)
     return plug.std_shrink(MODEL, prop, failure)
